@@ -257,6 +257,11 @@ def run_worker(binary, job, jobfile, timeout):
         json.dump(job, f)
     e = env()
     e["VERIF_JOB"] = jobfile
+    # no asynchronous preemption in any worker: the tape-driven goroutine scheduler (E2, and the concurrent phases of
+    # C28, C19 and C26 in the E1 / E6 binaries) keeps its park / release flags in plain memory, and a goroutine
+    # preempted inside those few instructions can miss its release (seen as a rare, unrepeatable "request hangs"
+    # on a loaded machine before this was set for every engine)
+    e["GODEBUG"] = "asyncpreemptoff=1"
     if os.path.basename(binary).startswith("e2-"):
         # race-detector reports go to a per-process file the engine reads back after every run; no preemption inside the tiny
         # unsynchronised sections of the scheduler
